@@ -168,3 +168,106 @@ def _(c):
     c.args(source="opaque:file")
     c.may_raise("OSError", "I/O failures propagate")
     c.on_path(put_item_trace)
+
+
+# ---- refresh: a candidate is treated as "already done" exactly when ITS index.wtml is in the store ---------------
+# (with publish's "index.wtml last" this gives: no partially published image is ever skipped)
+
+def _mgr_init_model(interp, env):
+    me = env.lookup("self")
+    me.fields["_workdir"] = env.lookup("workdir")
+    me.fields["_pipeio"] = Opaque("pipeio", "store")
+    return None
+
+
+contract("toasty.pipeline.PipelineManager.__init__")(lambda c: c.model(_mgr_init_model))
+contract("toasty.pipeline.PipelineManager.get_image_source")(
+    lambda c: c.model(lambda interp, env: Opaque("image_source", "image_source")))
+
+
+class RefreshPlugin(object):
+    def arbitrary_item(self, interp, it, label):
+        if isinstance(it, Opaque) and it.kind == "candidates":
+            k = z3.Int(fresh_name(label + "_k"))
+            cand = Opaque("candidate", fresh_name("candidate"))
+            cand.attrs["_g_idx"] = k
+            return cand, True, k
+        return None
+
+
+def install_externals_refresh(X):
+    X.plugins.insert(0, RefreshPlugin())
+
+    @X.register_opaque("image_source", "query_candidates")
+    def _(interp, src, args, kwargs):
+        return Opaque("candidates", fresh_name("candidates"))
+
+    @X.register_opaque("candidate", "get_unique_id")
+    def _(interp, cand, args, kwargs):
+        return StrSeq([Tok("uniq_id[%s]" % (cand.attrs["_g_idx"],), "name")])
+
+    @X.register_opaque("candidate", "save")
+    def _(interp, cand, args, kwargs):
+        interp.path.event("candidate_save", cand)
+        if interp.path.nondet("candidate_not_actionable"):
+            raise PyRaise("NotActionableError", origin="the candidate turned out to be unusable")
+        return None
+
+
+_prev_install = install_externals
+
+
+def install_externals(X):    # noqa: F811  (extends the installer above)
+    _prev_install(X)
+    install_externals_refresh(X)
+
+
+def refresh_setup(interp, path):
+    from pyvc.values import Inst
+    settings = Inst("Settings", module="argparse", fields={"workdir": StrSeq([Tok("workdir", "path")])})
+    return {"settings": settings}
+
+
+def refresh_trace(m, path, fr, env, outcome, value, exc):
+    ev = path.events
+    for si in [i for i, e in enumerate(ev) if e[0] == "loop_iter" and e[1] == 0]:
+        seg = ev[si + 1:]
+        if not any(e[0] == "loop_iter_end" and e[1] == 0 for e in seg):
+            continue
+        checks = [e for e in seg if e[0] == "check_exists"]
+        saves = [e for e in seg if e[0] == "candidate_save"]
+        cand = fr.last_loop_item.get(0)
+        path.oblige(m.oblname("at_most_one_fetch_per_candidate"), z3.BoolVal(len(saves) <= 1), kind="trace", assume_after=False)
+        name = m.oblname("done_iff_this_candidates_index_wtml_is_in_the_store")
+        ok = bool(checks) and len(checks[0][1]) == 2
+        if ok:
+            a0, a1 = checks[0][1]
+            ok = (isinstance(a0, StrSeq) and len(a0.parts) == 1 and isinstance(a0.parts[0], Tok)
+                  and a0.parts[0].name == "uniq_id[%s]" % (cand.attrs["_g_idx"],)
+                  and ((isinstance(a1, str) and a1 == "index.wtml") or (isinstance(a1, StrSeq) and a1.is_literal() and a1.literal() == "index.wtml")))
+        if not ok:
+            path.oblige(name, z3.BoolVal(False), kind="trace", assume_after=False)
+            continue
+        done = checks[0][2]
+        # the candidate is fetched (saved) unless it is done or explicitly flagged; never when it is done
+        flagged = z3.BoolVal(False)
+        if len(checks) > 1:
+            b0, b1 = checks[1][1] if len(checks[1][1]) == 2 else (None, None)
+            isflag = (isinstance(b1, str) and b1 == "skip.flag") or (isinstance(b1, StrSeq) and b1.is_literal() and b1.literal() == "skip.flag")
+            same_id = isinstance(b0, StrSeq) and b0.parts == a0.parts
+            if isflag and same_id:
+                flagged = checks[1][2]
+            else:
+                path.oblige(name, z3.BoolVal(False), kind="trace", assume_after=False)
+                continue
+        saved = z3.BoolVal(len(saves) == 1)
+        path.oblige(name, saved == z3.And(z3.Not(done), z3.Not(flagged)), kind="trace", assume_after=False)
+
+
+@contract("toasty.pipeline.cli.refresh_impl")
+def _(c):
+    c.setup(refresh_setup)
+    c.loop(0, invariant=[("counters_are_numbers", "n_cand >= 0")],
+           types={"n_cand": "int", "n_saved": "int", "n_done": "int", "n_skipped": "int", "n_rejected": "int"})
+    c.may_raise("OSError", "file-system errors propagate")
+    c.on_path(refresh_trace)
